@@ -46,9 +46,9 @@ static void do_build(hctx* h, const el_t* e, int n, const char* find) {
     md.schema = c; md.num_schema_elements = n;
     carquet_arena_t arena; carquet_arena_init(&arena);
     carquet_error_t err; memset(&err, 0, sizeof err);
-    signal(SIGALRM, on_alarm); alarm(10);
+    h_cpu_alarm(10, on_alarm);
     carquet_schema_t* s = build_schema(&arena, &md, &err);
-    alarm(0);
+    h_cpu_alarm_off();
     if (!s) { fprintf(h->out, " | err=1\n"); }
     else if (find) {
         fprintf(h->out, " | r=%d\n", carquet_schema_find_column(s, find));
